@@ -5,10 +5,12 @@
 //! `compressed_post` for it (units/frag/writer_compress_assumed.vrs).  The harnesses below check
 //! that contract on the REAL code through the public API, BOUNDED:
 //!   * buffer of 40 octets;
-//!   * prior names: the QNAME (bnd_write_compressed_owner_*), or the QNAME plus the owner of a
+//!   * prior names: the QNAME (bnd_write_compressed_owner*), or the QNAME plus the owner of a
 //!     first record (bnd_write_compressed_two_priors): at most 2 prior names;
-//!   * every symbolic name has at most MAXL non-null labels of at most MAXO octets
-//!     (wire length <= NB), all label octets symbolic.
+//!   * names have a FIXED SHAPE -- two one-octet labels (`x.y.`) or one (`x.`) -- and arbitrary
+//!     (symbolic) label octets.  (Fully symbolic shapes, i.e. symbolic allocation sizes for the
+//!     `Box<Name>` DST, make CBMC run out of time/memory: tried with <= 2 labels x <= 2 octets
+//!     and x <= 1 octet, 25 min each.)
 //! Checked for the compressee written by write_compressed_unhinted_name:
 //!   (1) decoding what was written at the old cursor with an independent RFC 1035 4.1.4
 //!       decoder yields the name (ASCII-case-insensitively in standard mode, exactly in
@@ -32,20 +34,6 @@ const NB: usize = MAXL * (1 + MAXO) + 1;
 const BUF: usize = 40;
 /// Upper bound on label starts recorded (header excluded): 3 names * (MAXL + 1).
 const MAXSTARTS: usize = 3 * (MAXL + 1);
-
-/// Any valid name within the bound (built by the crate's own parser, verified in C14).
-fn any_name() -> Box<Name> {
-    let bytes: [u8; NB] = kani::any();
-    let n: usize = kani::any();
-    kani::assume(n >= 1 && n <= NB);
-    match Name::try_from_uncompressed_all(&bytes[..n]) {
-        Ok(name) => name,
-        Err(_) => {
-            kani::assume(false);
-            unreachable!()
-        }
-    }
-}
 
 fn lc(b: u8) -> u8 {
     if b >= b'A' && b <= b'Z' {
@@ -164,13 +152,21 @@ fn question(qname: Box<Name>) -> Question {
     }
 }
 
-/// One prior name (the QNAME); the compressee is the owner of an answer RR (Hint::None).
-fn owner_against_qname(mode: CompressionMode) {
+/// A name of two one-octet labels `x.y.` / one one-octet label `x.` with symbolic octets: the
+/// SHAPE is fixed (so every allocation size is concrete for CBMC), the octets are arbitrary.
+fn name2(x: u8, y: u8) -> Box<Name> {
+    Name::try_from_uncompressed_all(&[1, x, 1, y, 0]).unwrap()
+}
+fn name1(x: u8) -> Box<Name> {
+    Name::try_from_uncompressed_all(&[1, x, 0]).unwrap()
+}
+
+/// One prior name (the QNAME `a.b.`, octets symbolic); the compressee is the owner of an answer
+/// RR (Hint::None), `c.d.` or `c.` with symbolic octets.
+fn owner_against_qname(mode: CompressionMode, owner_labels: usize) {
     let mut buf = [0u8; BUF];
-    let qname = any_name();
-    let owner = any_name();
-    // write_compressed_unhinted_name is only reached for names longer than a pointer
-    kani::assume(owner.wire_repr().len() > 2);
+    let qname = name2(kani::any(), kani::any());
+    let owner = if owner_labels == 2 { name2(kani::any(), kani::any()) } else { name1(kani::any()) };
     let q = question(qname);
     let mut w = Writer::new(&mut buf, BUF).unwrap();
     w.set_compression_mode(mode);
@@ -190,30 +186,43 @@ fn owner_against_qname(mode: CompressionMode) {
     assert!(olen <= owner.wire_repr().len());
     // the RR's fixed part and RDATA follow the owner directly
     assert!(len == owner_at + olen + 10 + 4);
+    // the interesting paths are reachable: whole-name pointer, label + pointer, no compression
+    kani::cover!(olen == 2);
+    kani::cover!(olen == 4);
+    kani::cover!(olen == owner.wire_repr().len());
 }
 
 #[kani::proof]
 #[kani::unwind(12)]
-pub(crate) fn bnd_write_compressed_owner_standard() {
-    owner_against_qname(CompressionMode::Standard);
+#[kani::solver(cadical)]
+pub(crate) fn bnd_write_compressed_owner2_standard() {
+    owner_against_qname(CompressionMode::Standard, 2);
 }
 
 #[kani::proof]
 #[kani::unwind(12)]
-pub(crate) fn bnd_write_compressed_owner_case_preserving() {
-    owner_against_qname(CompressionMode::CasePreserving);
+#[kani::solver(cadical)]
+pub(crate) fn bnd_write_compressed_owner1_standard() {
+    owner_against_qname(CompressionMode::Standard, 1);
+}
+
+#[kani::proof]
+#[kani::unwind(12)]
+#[kani::solver(cadical)]
+pub(crate) fn bnd_write_compressed_owner2_case_preserving() {
+    owner_against_qname(CompressionMode::CasePreserving, 2);
 }
 
 /// Two prior names (QNAME and the owner of a first record, which also becomes the most recent
 /// name... in RDATA is exercised through an NS record): the compressee is the NS target.
 #[kani::proof]
 #[kani::unwind(12)]
+#[kani::solver(cadical)]
 pub(crate) fn bnd_write_compressed_two_priors() {
     let mut buf = [0u8; BUF];
-    let qname = any_name();
-    let owner = any_name();
-    let target = any_name();
-    kani::assume(target.wire_repr().len() > 2);
+    let qname = name2(kani::any(), kani::any());
+    let owner = name1(kani::any());
+    let target = name2(kani::any(), kani::any());
     let q = question(qname);
     let mut w = Writer::new(&mut buf, BUF).unwrap();
     w.add_question(&q).unwrap();
